@@ -94,7 +94,10 @@ def project(weights,
     range_dominances = [(j, i) for i, j in range_dominances]
     scalings = [-1.0 if m == -1 else 1.0 for m in monotonicities]
     for dim, (lower, upper) in enumerate(zip(input_min, input_max)):
-      if lower is not None and upper is not None:
+      # An empty range can only belong to an input outside of every dominance
+      # pair (see verify_hyperparameters); scaling it by 0 and back would
+      # turn its weight into NaN.
+      if lower is not None and upper is not None and upper != lower:
         scalings[dim] *= upper - lower
     scalings = tf.constant(
         scalings, dtype=weights.dtype, shape=(weights.shape[0], 1))
